@@ -713,6 +713,9 @@ class CallMixin:
 
     def bi_str(self, args, kws, st, node, k):
         v = args[0]
+        if isinstance(v, VOpt):           # str(None) == 'None'; otherwise the string of the value
+            inner = self.uf('str_of', [v.inner], T_STR) if not (isinstance(v.inner, VObj) and v.inner.sort == 'Str') else v.inner
+            return k(st, VObj('Str', z3.If(v.isnone, self.strlit('None').z, inner.z)))
         if isinstance(v, VObj) and v.sort == 'Str':
             return k(st, v)
         return k(st, self.uf('str_of', [v], T_STR))
